@@ -15,11 +15,19 @@ pub struct EnvCfg {
     /// The k-th `random_u16()` call returns `forced[k]` while k < forced.len().
     #[serde(default)]
     pub forced: Vec<u16>,
+    /// Sub-millisecond clock reads: every `now()` returns the simulated time plus a seeded offset
+    /// below this many microseconds (never going backwards). The runtime's timers and the
+    /// network tick in whole milliseconds; a real clock read inside a poll is later than the
+    /// instant of the event that caused the poll. 0 = off.
+    #[serde(default)]
+    pub now_jitter_us: u32,
 }
 
 pub struct SimEnv {
     cfg: Arc<EnvCfg>,
     calls: Arc<AtomicU64>,
+    now_calls: Arc<AtomicU64>,
+    last_now: Arc<std::sync::Mutex<Option<std::time::Instant>>>,
 }
 
 impl SimEnv {
@@ -27,19 +35,36 @@ impl SimEnv {
         SimEnv {
             cfg: Arc::new(cfg),
             calls: Arc::new(AtomicU64::new(0)),
+            now_calls: Arc::new(AtomicU64::new(0)),
+            last_now: Default::default(),
         }
     }
 }
 
 impl UtpEnvironment for SimEnv {
     fn now(&self) -> std::time::Instant {
-        tokio::time::Instant::now().into_std()
+        let base = tokio::time::Instant::now().into_std();
+        if self.cfg.now_jitter_us == 0 {
+            return base;
+        }
+        let k = self.now_calls.fetch_add(1, Ordering::Relaxed);
+        let j = h3(self.cfg.seed, k, 99) % (self.cfg.now_jitter_us as u64 * 1000);
+        let cand = base + std::time::Duration::from_nanos(j);
+        let mut last = self.last_now.lock().unwrap();
+        let t = match *last {
+            Some(l) if l > cand => l,
+            _ => cand,
+        };
+        *last = Some(t);
+        t
     }
 
     fn copy(&self) -> Self {
         SimEnv {
             cfg: self.cfg.clone(),
             calls: self.calls.clone(),
+            now_calls: self.now_calls.clone(),
+            last_now: self.last_now.clone(),
         }
     }
 
